@@ -3,7 +3,7 @@
 
 selftest/benign/<name>/{patch.diff,notes.md} were written by independent sub-agents asked to restructure the
 implementation substantially while preserving all public behaviour (and all twenty properties).
-usage: selftest/run_benign.py [name-substring ...]   -> selftest/benign_results.json
+usage: selftest/run_benign.py [name-substring ...] [--jobs N]   -> selftest/benign_results.json
 """
 import json
 import subprocess
@@ -12,18 +12,28 @@ from pathlib import Path
 
 HERE = Path(__file__).resolve().parent
 names = [a for a in sys.argv[1:] if not a.startswith("--")]
-results = []
-for d in sorted((HERE / "benign").iterdir()):
-    if names and not any(n in d.name for n in names):
-        continue
+jobs = int(sys.argv[sys.argv.index("--jobs") + 1]) if "--jobs" in sys.argv else 3
+if "--jobs" in sys.argv:
+    names = [n for n in names if n != sys.argv[sys.argv.index("--jobs") + 1]]
+dirs = [d for d in sorted((HERE / "benign").iterdir()) if not names or any(n in d.name for n in names)]
+
+
+def one(d):
     p = subprocess.run(["/venv/bin/python", str(HERE.parent / "tools" / "try_benign.py"), str(d)], capture_output=True, text=True)
     try:
         r = json.loads(p.stdout)
     except Exception:  # noqa: BLE001
         r = {"error": (p.stdout + p.stderr)[-500:]}
-    results.append({"refactoring": d.name, "patch_applies": r.get("patch_applies"), "baseline_tests_not_passing": r.get("baseline_tests_not_passing"),
-                    "alarms": r.get("alarms"), "details": {k: v for k, v in r.get("checks", {}).items() if v["exit"] != 0}, "error": r.get("error")})
-    print(d.name, "SILENT" if r.get("alarms") == [] else f"ALARM {r.get('alarms')} {r.get('error', '')}")
+    res = {"refactoring": d.name, "patch_applies": r.get("patch_applies"), "baseline_tests_not_passing": r.get("baseline_tests_not_passing"),
+           "alarms": r.get("alarms"), "details": {k: v for k, v in r.get("checks", {}).items() if v["exit"] != 0}, "error": r.get("error")}
+    print(d.name, "SILENT" if r.get("alarms") == [] else f"ALARM {r.get('alarms')} {r.get('error', '')}", flush=True)
+    return res
+
+
+from concurrent.futures import ThreadPoolExecutor  # noqa: E402
+
+with ThreadPoolExecutor(max_workers=jobs) as ex:
+    results = list(ex.map(one, dirs))
 if not names:
     (HERE / "benign_results.json").write_text(json.dumps(results, indent=1))
 bad = [r["refactoring"] for r in results if r.get("alarms") != []]
